@@ -381,6 +381,43 @@ func c19UfsFreshUsers(D int) Scenario {
 	}}
 }
 
+// (h) walks that start from one shared fid (as the client's path helpers do) and begin
+// with "..", several at once, first of their kind on that fid; from the root and from a
+// directory reached through a symbolic link
+func c19UfsSharedDotDot(dotu bool, D int) Scenario {
+	var root, base string
+	name := fmt.Sprintf("ufs walks beginning with '..' from one shared fid dotu=%v", dotu)
+	body := func() {
+		vs.EnableHB()
+		os.RemoveAll(root)
+		makeStdTree(root)
+		os.Symlink("d", filepath.Join(root, "ld"))
+		h := newUfsH(root, 8216, dotu)
+		c := h.Connect()
+		ver := "9P2000"
+		un := ""
+		if dotu {
+			ver = "9P2000.u"
+		} else {
+			un = go9p.OsUsers.Uid2User(os.Geteuid()).Name()
+		}
+		c.Version(8216, ver)
+		c.Rpc(tattach(1, 0, wire.NOFID, un, uint32(os.Geteuid()), dotu))
+		c.Rpc(twalk(2, 0, 9, "ld"))
+		vs.Window(true)
+		c.Send(dotu, twalk(3, 0, 1, "..", "d"), twalk(4, 0, 2, "..", "f"), twalk(5, 0, 3, ".."))
+		vs.Idle()
+		c.Send(dotu, twalk(6, 9, 4, "..", "f"), twalk(7, 9, 5, ".."))
+		vs.Idle()
+		vs.Window(false)
+	}
+	return Scenario{Name: name, Run: func(rc *RunCtx) *Result {
+		base, root = scratchDir("c19")
+		defer os.RemoveAll(base)
+		return runVs(rc, &VsSpec{Name: name, Body: body, Check: c19Check, P: D, Delay: true})
+	}}
+}
+
 func c19Scenarios(tier string) []Scenario {
 	D := 1
 	if tier == "thorough" {
@@ -397,6 +434,7 @@ func c19Scenarios(tier string) []Scenario {
 	out = append(out, c19UfsScenario(3, true, D), c19ClientScenario(3, false, D))
 	out = append(out, c19UfsSymlinkedRoot(false, D), c19UfsSymlinkedRoot(true, D))
 	out = append(out, c19UfsFreshUsers(D))
+	out = append(out, c19UfsSharedDotDot(false, D), c19UfsSharedDotDot(true, D))
 	out = append(out, c19UfsSpelledRoot("/", true, D), c19UfsSpelledRoot("//./", false, D))
 	out = append(out, c19UfsPipelineScenario(64, 0, false, D), c19UfsPipelineScenario(64, 33, true, D), c19UfsPipelineScenario(96, 0, true, D))
 	sort.Slice(out, func(i, j int) bool { return out[i].Name < out[j].Name })
